@@ -6,6 +6,7 @@ import (
 	"go/token"
 	"go/types"
 	"os"
+	"regexp"
 	"sort"
 	"strings"
 
@@ -38,13 +39,103 @@ type Prog struct {
 	domCache    map[*ssa.Function]*domInfo
 	helperSites map[*ssa.Function][]*ssa.Call
 	memW        map[*ssa.Function]bool
+	renames     []renameEntry     // functions renamed since the pinned tree: current short name -> pinned short name
+	Renamed     map[string]string // the same, for the evidence
+}
+
+type renameEntry struct {
+	re  *regexp.Regexp
+	old string
 }
 
 // short strips the module prefix from a qualified name.
 func short(s string) string {
+	s = short0(s)
+	if theProg != nil {
+		for _, e := range theProg.renames {
+			s = e.re.ReplaceAllLiteralString(s, e.old)
+		}
+	}
+	return s
+}
+
+func short0(s string) string {
 	s = strings.ReplaceAll(s, ModPath+"/", "")
 	s = strings.ReplaceAll(s, ModPath, "posmint")
 	return s
+}
+
+// detectRenames: a pinned top-level function that no longer exists, and exactly one function unknown to the pinned
+// tree in the same package / on the same receiver with the same number of parameters (the same parameter names if
+// several have that number): the function was renamed. It keeps its pinned name in every term, table key and anchor,
+// so a rename is transparent to the rules (a rename together with a change is judged as the change).
+func (P *Prog) detectRenames() {
+	loadPinned()
+	if len(pinnedParams) == 0 {
+		return
+	}
+	prefixOf := func(n string) string { return n[:strings.LastIndex(n, ".")+1] }
+	cur := map[string]*ssa.Function{}
+	for _, f := range P.RepoFns {
+		if f.Parent() == nil && f.Synthetic == "" {
+			cur[short0(f.String())] = f
+		}
+	}
+	var vanished, fresh []string
+	for n := range pinnedParams {
+		if strings.Contains(n, "$") || strings.HasPrefix(n, "free|") || !strings.Contains(n, ".") {
+			continue
+		}
+		if _, ok := cur[n]; !ok {
+			vanished = append(vanished, n)
+		}
+	}
+	for n := range cur {
+		if _, ok := pinnedParams[n]; !ok && strings.Contains(n, ".") {
+			fresh = append(fresh, n)
+		}
+	}
+	sort.Strings(vanished)
+	sort.Strings(fresh)
+	names := func(f *ssa.Function) []string {
+		var ns []string
+		for _, p := range f.Params {
+			ns = append(ns, p.Name())
+		}
+		return ns
+	}
+	match := map[string][]string{} // fresh -> vanished that chose it
+	choice := map[string]string{}
+	for _, v := range vanished {
+		var cands []string
+		for _, n := range fresh {
+			if prefixOf(n) == prefixOf(v) && len(cur[n].Params) == len(pinnedParams[v]) {
+				cands = append(cands, n)
+			}
+		}
+		if len(cands) > 1 {
+			var same []string
+			for _, n := range cands {
+				if strings.Join(names(cur[n]), ",") == strings.Join(pinnedParams[v], ",") {
+					same = append(same, n)
+				}
+			}
+			cands = same
+		}
+		if len(cands) == 1 {
+			choice[v] = cands[0]
+			match[cands[0]] = append(match[cands[0]], v)
+		}
+	}
+	P.Renamed = map[string]string{}
+	for v, n := range choice {
+		if len(match[n]) != 1 {
+			continue
+		}
+		P.renames = append(P.renames, renameEntry{regexp.MustCompile(regexp.QuoteMeta(n) + `\b`), v})
+		P.Renamed[n] = v
+	}
+	sort.Slice(P.renames, func(i, j int) bool { return P.renames[i].old < P.renames[j].old })
 }
 
 func isRepoPkgPath(p string) bool {
@@ -136,9 +227,12 @@ func Load(dir string, extraEnv []string, buildFlags []string) (*Prog, error) {
 			continue
 		}
 		P.RepoFns = append(P.RepoFns, fn)
-		P.fnByName[short(fn.String())] = fn
 	}
 	sort.Slice(P.RepoFns, func(i, j int) bool { return P.RepoFns[i].String() < P.RepoFns[j].String() })
+	P.detectRenames()
+	for _, fn := range P.RepoFns {
+		P.fnByName[short(fn.String())] = fn
+	}
 	P.buildFuncAliases()
 	return P, nil
 }
